@@ -275,6 +275,59 @@ def run(ctx):
                    "instructions on the same line and - through the pooled buffer - can reach another template" % detail_, where_)
     ctx.floor("C14.F7 compile_* functions checked for span balance", nsp, 12)
     ctx.count("C14.F7 span stack operations seen", getattr(an, "span_ops", 0))
+    # F8: the generator's line is the line of the construct being compiled.  `set_line` / `set_line_from_span` receive a
+    # span that comes from the AST node at hand (a parameter, `node.span()`), never one read back from the span stack:
+    # the stack also holds spans of *enclosing* constructs that started on earlier lines (a `{% call %}` tag above its
+    # body, a loop filter above the iterable), and falling back to them makes later instructions report that line.
+    nset = 0
+    for f_ in sorted(progm.fns.values(), key=lambda x: x.path):
+        if not f_.path.startswith(GEN + "::") and not (f_.root or "").startswith(GEN + "::"):
+            continue
+        for c_ in f_.calls():
+            if c_.name not in (GEN + "::set_line", GEN + "::set_line_from_span") or len(c_.args) < 2:
+                continue
+            nset += 1
+            from_stack = False
+            for o_ in flow.origins(f_, c_.args[1], through_calls=flow._xpass):
+                srcs = [o_]
+                if o_.kind == "call" and o_.call.args:
+                    srcs += flow.origins(f_, o_.call.args[0], through_calls=flow._xpass)
+                if any("span_stack" in x.proj for x in srcs):
+                    from_stack = True
+            ctx.ob("C14.F8.line-comes-from-the-construct-being-compiled", "%s" % f_.path.split("::")[-1], not from_stack,
+                   "%s sets the generator's line from a span read back from the span stack: the line can move back to an "
+                   "enclosing construct that began on an earlier line, and the instructions that follow report that line"
+                   % f_.path.split("::")[-1], f_.where(c_.bb))
+    ctx.floor("C14.F8 set_line call sites in the code generator", nset, 10)
+    # F9: an error the tokenizer hands on gets the tokenizer's own position.  The parser attaches the span of the *last
+    # token it consumed* to any error that arrives without a location, so an error a helper (string unescaping) raised
+    # for the token being read would be reported at the token before it - a line that does not move when lines are
+    # inserted in between.  In every Tokenizer method the Err side of a call to a non-tokenizer function that returns the
+    # crate's Error passes `set_filename_and_span` / `set_filename_and_line` before it returns.
+    TOK = "minijinja::compiler::lexer::Tokenizer::"
+    nl = 0
+    for f_ in sorted(progm.fns.values(), key=lambda x: x.path):
+        if not (f_.path.startswith(TOK) or (f_.root or "").startswith(TOK)):
+            continue
+        setters = [c_.bb for c_ in f_.calls() if c_.name.endswith("Error::set_filename_and_span") or c_.name.endswith("Error::set_filename_and_line")]
+        for c_ in f_.calls():
+            if c_.name.startswith(TOK) or c_.dest is None or "p" in c_.dest:
+                continue
+            if not c_.name.startswith("minijinja::"):
+                continue        # library combinators: their errors are built by the closures passed to them (syntax_error)
+            ty_ = f_.locals[c_.dest["l"]]
+            if ty_.get("adt") != "core::result::Result" or "minijinja::error::Error" not in ty_.get("s", ""):
+                continue
+            sp_ = errflow.ok_err_blocks(f_, c_)
+            if sp_ is None or not sp_[1]:
+                continue
+            nl += 1
+            ok_ = all(cfg.paths_must_pass(f_, e_, setters, f_.returns()) for e_ in sp_[1])
+            ctx.ob("C14.F9.tokenizer-errors-carry-the-tokenizer's-position", "%s|%s" % (f_.path.split("::")[-1], c_.name.split("::")[-1]), ok_,
+                   "%s returns the error of %s without giving it the position of the token being read: the parser then "
+                   "attaches the span of the previous token (wrong line, and it does not move with the literal)"
+                   % (f_.path.split("::")[-1], c_.name.split("::")[-1]), f_.where(c_.bb))
+    ctx.count("C14.F9 fallible helper calls in the tokenizer", nl)
     ctx.sample({"Err exits": len(errs), "process_err calls": len(perr)})
 
 
